@@ -13,6 +13,7 @@ func init() {
 			{Name: "packets", Flavour: "plain", TimeoutQ: m10, TimeoutT: m60, Weight: 4},
 			{Name: "text", Flavour: "plain", TimeoutQ: m10, TimeoutT: m60, Weight: 2},
 			{Name: "live", Flavour: "ft", TimeoutQ: m10, TimeoutT: m60, Weight: 4},
+			{Name: "fuzz", Flavour: "fuzz", TimeoutQ: m10, TimeoutT: m60 * 2, Weight: 16},
 		},
 	}
 }
